@@ -50,11 +50,31 @@ def cases(tier, rng, ctl=True):
     hand = ["1 2+", "3(n,)", "0[1|2|3]", "0[1|0|3|4]", "1 2 3 λ2|W;†", "7 8⟨:|+|_⟩", "@f:2|+;3 4@f;", "1 2 3 ≬+-N†",
             "3 4₌+-", "3 4₍+-", "⟨3|1|2⟩µN;", "5ɾ'2<;", "⟨1|2|3⟩ƒ+", "⟨1|2|3⟩ɖ+", "3 →x ←x ←x+", "4 £¥¥*", "3(n)W",
             "3(X)", "3(x1,)", "3{:|‹x}", "λ1X2;†", "λ[1|X]3;†", "5λ:1>[‹x]|1;†", "@f:p|←p d;4@f;", "1 2⟨3(X)⟩",
-            "3ɾ(n[X])", "{X|1}", "2 3 4λ3|W;†", "1 2~+", "3ɾ~›", "2&›¥", "5 3ß›", "0 3ß›", "3⁽d†", "3‡d›†"]
+            "3ɾ(n[X])", "{X|1}", "2 3 4λ3|W;†", "1 2~+", "3ɾ~›", "2&›¥", "5 3ß›", "0 3ß›", "3⁽d†", "3‡d›†",
+            # early exits of named functions, directly / under an if / on a later call / in a loop
+            "@f:1|X 5;3 @f;", "@f:1|:2>[X]d;1 @f;5 @f;", "@f:1|x;3 @f;", "3(@f|X;@f;)", "@f:2|+X1;1 2@f;3 4@f;",
+            "@f|1[X]2;@f;@f;", "@f:1|[X|x];0 @f;1 @f;",
+            # X / x in a while condition, met on the first or on a later evaluation, alone or nested in a loop
+            "2({¥[X]¥¬|1£})", "0→a 2({←a [X]←a ¬|1→a })", "{X|1}", "1{[X]0|}", "3({x0|})", "2(1{:[X]‹|_0})",
+            "λ{X0|};†", "2(n{X|})",
+            # stack underflow at top level first, then underflow inside a lambda / map / function / list item
+            "+5λ+;†", "+3 4ƛ+;", "+@f:1|+;2@f;", "-1 2 3Wƛ-;", "+λ2|+;†", "_λ+;†,", "+⟨+|-⟩", "+3(+)", "++λ++;†",
+            "?+5λ+;†", "+5λ?+;†", "+'+;", "+µ+;", "+1 2₌+-", "+3ɾv+", "+3&+¥"]
     for p in hand:
         for fl in ["", "W"]:
-            out.append((p, fl, []))
-            out.append((p, fl, [3]))
+            for inp in machine.INPUT_SETS:
+                out.append((p, fl, inp))
+    # the same scenario shapes, varied: underflow prefixes x call shapes, function bodies with early exits
+    for pre in ["", "+", "-_", "?_", "+,"]:
+        for call in ["5λ+;†", "λ+;†", "3 4ƛ+;", "@f:1|+;2@f;", "@f:2|+;@f;", "2λ2|+;†", "3ɾ'+;", "⟨+⟩", "1 2₍+-", "4λ1|+;†+"]:
+            out.append((pre + call, rng.choice(["", "W"]), rng.choice(machine.INPUT_SETS)))
+    for body in ["X", "[X]", "1[X]2", ":[X|x]", "2(X)3", "λX;†", "x", "+X-"]:
+        for k in ["", ":1", ":2", ":a"]:
+            out.append((f"@f{k}|{body};1 2 @f;3 @f;", rng.choice(["", "W"]), rng.choice(machine.INPUT_SETS)))
+            out.append((f"2(@f{k}|{body};1 2 @f;)", "", rng.choice(machine.INPUT_SETS)))
+    for cond in ["X", "[X]", "¥[X]¥¬", "x0", ":[X]", "n[X]0"]:
+        for wrap in ["{%s|1£}", "2({%s|1£})", "λ{%s|1£};†", "3({%s|}1)", "1{:|{%s|0}_‹}"]:
+            out.append((wrap % cond, "", rng.choice(machine.INPUT_SETS)))
     return list(dict.fromkeys((p, f, tuple(map(repr, i))) for p, f, i in out)), out
 
 
